@@ -273,8 +273,8 @@ pub fn run(ctx: &Ctx) -> Report {
     );
     rep.assume("reference tree builder (harness/src/refimpl/treebuilder.rs, tb_modes.rs) transcribes the living standard from memory (no network); the customizable-select rules (select/option/optgroup/hr/input in select) mirror html5ever's reading and are tested for self-consistency only");
     rep.assume("maybe-clone-an-option-into-selectedcontent is a no-op on both sides (RcDom's duty, C20)");
-    report_known(ctx, &mut rep, &|v| replay(ctx, v));
-    run_regressions(ctx, &mut rep, &|v| replay(ctx, v));
+    report_known(ctx, &mut rep, &|v| replay(&ctx.strict_clone(), v));
+    run_regressions(ctx, &mut rep, &|v| replay(&ctx.strict_clone(), v));
     let kf = active_switches(ctx);
 
     // (3) doctype sweep
